@@ -1187,6 +1187,38 @@ func (pc *PeerConnection) LocalDescription() *SessionDescription {
 	return pc.CurrentLocalDescription()
 }
 
+// validateRemoteDescription runs the checks of SetRemoteDescription that only
+// look at the description itself.
+func (pc *PeerConnection) validateRemoteDescription(desc *SessionDescription, isRenegotiation bool) error {
+	if desc.Type == SDPTypeRollback || desc.parsed == nil {
+		return nil
+	}
+
+	detectedPlanB := descriptionIsPlanB(desc, pc.log)
+	if pc.configuration.SDPSemantics != SDPSemanticsUnifiedPlan {
+		detectedPlanB = descriptionPossiblyPlanB(desc)
+	}
+	if desc.Type != SDPTypeAnswer && !detectedPlanB {
+		for _, media := range desc.parsed.MediaDescriptions {
+			if getMidValue(media) == "" {
+				return errPeerConnRemoteDescriptionWithoutMidValue
+			}
+		}
+	}
+
+	if _, err := extractICEDetails(desc.parsed, pc.log); err != nil {
+		return err
+	}
+
+	if !isRenegotiation {
+		if _, _, err := extractFingerprint(desc.parsed); err != nil {
+			return err
+		}
+	}
+
+	return nil
+}
+
 // SetRemoteDescription sets the SessionDescription of the remote peer
 //
 //nolint:gocognit,gocyclo,cyclop,maintidx
@@ -1198,6 +1230,12 @@ func (pc *PeerConnection) SetRemoteDescription(desc SessionDescription) error {
 	isRenegotiation := pc.currentRemoteDescription != nil
 
 	if _, err := desc.Unmarshal(); err != nil {
+		return err
+	}
+
+	// Reject a description that can be seen to be unusable before anything is
+	// changed: once setDescription has run the signaling state has moved on.
+	if err := pc.validateRemoteDescription(&desc, isRenegotiation); err != nil {
 		return err
 	}
 
